@@ -8,7 +8,7 @@
   arbitrary histories of load / reload / lookup steps with arbitrary source and MDQ-server answers.
 
   `Policy.code` is the pinned code, `Policy.ideal` the reference the specification is built on
-  (see `Model/MdStore.lean`, `Spec/C11.lean`); they differ in two switches (F9, F11).  Theorems
+  (see `Model/MdStore.lean`, `Spec/C11.lean`); they differ in one switch (F9, `unsignedPasses`).  Theorems
   stated for an arbitrary `pol`, or about functions that take no policy (`prepEnt`, `parseDoc`, all
   lookups on a descriptor, `keysOf`/`itemsOf`/`withDescOf`), hold of the code as it is.
 -/
@@ -496,15 +496,12 @@ def refetches (now : Int) (s : Source α) (eid : α) : Prop :=
 def onTopic (resp : Fetch α) (eid : α) : Prop :=
   ∀ d, resp = .doc d → ∀ e ∈ docEntities d, e.id = eid
 
-theorem mdxFetch_ideal_props (p2 : α) (now : Int) (resp : Fetch α) (s0 : Source α) (eid : α)
-    (h0 : has s0.entities eid = false) (hot : onTopic resp eid) :
-    (∀ e, (mdxFetch Policy.ideal p2 now resp s0 eid).1 = .ok e →
-        lookup (mdxFetch Policy.ideal p2 now resp s0 eid).2.entities eid = some e ∧
-        ∃ d, resp = .doc d ∧ (s0.cert = true → d.sig = .valid) ∧
-          ∃ e0, (docEntities d).find? (fun x => decide (x.id = eid) && eligible s0.chk now p2 x) = some e0 ∧
-            prepEnt p2 e0 = some e) ∧
-    ((∀ e, (mdxFetch Policy.ideal p2 now resp s0 eid).1 ≠ .ok e) →
-        ∀ id, lookup (mdxFetch Policy.ideal p2 now resp s0 eid).2.entities id = lookup s0.entities id) := by
+/-- a fetch that does not produce the entity leaves every lookup on the source's entries as it was
+    (any policy without the pre-85b6178b `storeFirst` behaviour: the reference AND the code) -/
+theorem mdxFetch_fail_props (pol : Policy) (hsf : pol.storeFirst = false) (p2 : α) (now : Int) (resp : Fetch α)
+    (s0 : Source α) (eid : α) (h0 : has s0.entities eid = false) (hot : onTopic resp eid) :
+    (∀ e, (mdxFetch pol p2 now resp s0 eid).1 ≠ .ok e) →
+      ∀ id, lookup (mdxFetch pol p2 now resp s0 eid).2.entities id = lookup s0.entities id := by
   unfold mdxFetch
   cases resp with
   | unavailable => simp
@@ -516,23 +513,14 @@ theorem mdxFetch_ideal_props (p2 : α) (now : Int) (resp : Fetch α) (s0 : Sourc
     | ok m =>
       simp only
       have hlm := lookup_parseDoc hp
-      by_cases hc : checkSig Policy.ideal .mdq s0.cert d.sig = true
+      by_cases hc : checkSig pol .mdq s0.cert d.sig = true
       · simp only [hc, ↓reduceIte]
         have hl0 : lookup s0.entities eid = none := lookup_none_of_not_has h0
         cases hl : lookup m eid with
-        | some e =>
-          simp only [Res.ok.injEq, forall_eq', true_and, ne_eq, not_true_eq_false, forall_const, false_implies,
-            and_true, imp_false]
-          refine ⟨hl, d, rfl, ?_, ?_⟩
-          · intro hcert
-            unfold checkSig at hc
-            cases hsig : d.sig <;> simp_all [Policy.ideal]
-          · rw [hlm, hl0, Option.none_or] at hl
-            simp only [Option.bind_eq_some_iff] at hl
-            exact hl
+        | some e => intro hfail; exact absurd rfl (hfail e)
         | none =>
-          simp only [reduceCtorEq, false_implies, implies_true, ne_eq, not_false_eq_true, forall_const, true_and]
-          intro id
+          intro _ id
+          simp only
           rw [hlm]
           by_cases hid : id = eid
           · subst hid; rw [← hlm, hl, hl0]
@@ -542,35 +530,45 @@ theorem mdxFetch_ideal_props (p2 : α) (now : Int) (resp : Fetch α) (s0 : Sourc
               have := hot d rfl e he
               simp [this, Ne.symm hid]
             rw [this]; simp
-      · have hsf : Policy.ideal.storeFirst = false := rfl
-        simp only [hc, Bool.false_eq_true, ↓reduceIte, hsf]
+      · simp only [hc, Bool.false_eq_true, ↓reduceIte, hsf]
         simp
 
 /-- A failed refresh of an expired entry (and equally a failed first fetch) serves nothing for that
-    entity (reference policy): whatever the reason — HTTP error, malformed answer, signature that
-    does not verify, entity expired or without SAML 2.0 support — the entity is not listed by the
-    source afterwards. -/
-theorem C11_failed_refresh_serves_nothing (p2 : α) (now : Int) (resp : Fetch α) (s : Source α) (eid : α)
-    (hre : refetches now s eid) (hot : onTopic resp eid)
-    (hfail : ∀ e, (mdxGet Policy.ideal p2 now resp s eid).1 ≠ .ok e) :
-    has (mdxGet Policy.ideal p2 now resp s eid).2.entities eid = false := by
+    entity: whatever the reason — HTTP error, malformed answer, signature that does not verify,
+    entity expired or without SAML 2.0 support — the entity is not listed by the source afterwards
+    (`__getitem__` has popped the stale entry, `parse_and_check_signature` restores the entity set it
+    found on entry).  Holds for every policy with `storeFirst = false`: the reference and, since fix
+    85b6178b, the code as it is (`C11_failed_refresh_serves_nothing_code`). -/
+theorem C11_failed_refresh_serves_nothing (pol : Policy) (hsf : pol.storeFirst = false) (p2 : α) (now : Int)
+    (resp : Fetch α) (s : Source α) (eid : α) (hre : refetches now s eid) (hot : onTopic resp eid)
+    (hfail : ∀ e, (mdxGet pol p2 now resp s eid).1 ≠ .ok e) :
+    has (mdxGet pol p2 now resp s eid).2.entities eid = false := by
   unfold mdxGet at hfail ⊢
   rcases hre with h0 | ⟨h1, t, ht, hlt⟩
   · simp only [h0, Bool.not_false, ↓reduceIte] at hfail ⊢
-    have := (mdxFetch_ideal_props p2 now resp s eid h0 hot).2 hfail eid
+    have := mdxFetch_fail_props pol hsf p2 now resp s eid h0 hot hfail eid
     rw [has_eq_isSome, this, ← has_eq_isSome, h0]
   · have hnle : ¬ now ≤ t := by omega
     simp only [h1, Bool.not_true, Bool.false_eq_true, ↓reduceIte, ht, hnle] at hfail ⊢
     have he : has ({ s with entities := erase s.entities eid } : Source α).entities eid = false := by
       simp [has_erase]
-    have := (mdxFetch_ideal_props p2 now resp _ eid he hot).2 hfail eid
+    have := mdxFetch_fail_props pol hsf p2 now resp _ eid he hot hfail eid
     rw [has_eq_isSome, this, ← has_eq_isSome, he]
 
-/-- A failure never adds anything (reference policy, MDQ): after a lookup that did not produce the
-    entity, the source lists nothing it did not list before. -/
-theorem C11_failure_adds_nothing (p2 : α) (now : Int) (resp : Fetch α) (s : Source α) (eid : α)
-    (hot : onTopic resp eid) (hfail : ∀ e, (mdxGet Policy.ideal p2 now resp s eid).1 ≠ .ok e) (id : α)
-    (h : has (mdxGet Policy.ideal p2 now resp s eid).2.entities id = true) : has s.entities id = true := by
+/-- … in particular of the model of the code as it is (full strength since fix 85b6178b; the input on
+    which the unverified entity used to stay listed is `hF11` below and corpus/C11). -/
+theorem C11_failed_refresh_serves_nothing_code (p2 : α) (now : Int) (resp : Fetch α) (s : Source α) (eid : α)
+    (hre : refetches now s eid) (hot : onTopic resp eid)
+    (hfail : ∀ e, (mdxGet Policy.code p2 now resp s eid).1 ≠ .ok e) :
+    has (mdxGet Policy.code p2 now resp s eid).2.entities eid = false :=
+  C11_failed_refresh_serves_nothing Policy.code rfl p2 now resp s eid hre hot hfail
+
+/-- A failure never adds anything (MDQ; reference and code, as above): after a lookup that did not
+    produce the entity, the source lists nothing it did not list before. -/
+theorem C11_failure_adds_nothing (pol : Policy) (hsf : pol.storeFirst = false) (p2 : α) (now : Int)
+    (resp : Fetch α) (s : Source α) (eid : α)
+    (hot : onTopic resp eid) (hfail : ∀ e, (mdxGet pol p2 now resp s eid).1 ≠ .ok e) (id : α)
+    (h : has (mdxGet pol p2 now resp s eid).2.entities id = true) : has s.entities id = true := by
   unfold mdxGet at hfail h
   by_cases h0 : has s.entities eid = true
   · simp only [h0, Bool.not_true, Bool.false_eq_true, ↓reduceIte] at hfail h
@@ -584,13 +582,13 @@ theorem C11_failure_adds_nothing (p2 : α) (now : Int) (resp : Fetch α) (s : So
       · simp only [hle, ↓reduceIte] at hfail h
         have he : has ({ s with entities := erase s.entities eid } : Source α).entities eid = false := by
           simp [has_erase]
-        have := (mdxFetch_ideal_props p2 now resp _ eid he hot).2 hfail id
+        have := mdxFetch_fail_props pol hsf p2 now resp _ eid he hot hfail id
         rw [has_eq_isSome, this, ← has_eq_isSome] at h
         simp only [has_erase, Bool.and_eq_true] at h
         exact h.1
   · simp only [Bool.not_eq_true] at h0
     simp only [h0, Bool.not_false, ↓reduceIte] at hfail h
-    have := (mdxFetch_ideal_props p2 now resp s eid h0 hot).2 hfail id
+    have := mdxFetch_fail_props pol hsf p2 now resp s eid h0 hot hfail id
     rw [has_eq_isSome, this, ← has_eq_isSome] at h
     exact h
 
@@ -1179,15 +1177,13 @@ theorem C11_reference_meets_spec (c : Consts α) (h : List (Step α)) :
   allOk_refl _
 
 /-- FULL statement: on every history the observations of the model of the pinned code are
-    acceptable to the specification.  FALSE of the pinned code — two independent root causes,
-    see the counter-examples below. -/
+    acceptable to the specification.  FALSE of the pinned code: F9, see the counter-example below. -/
 def C11_model_meets_spec_full : Prop :=
   ∀ (c : Consts Nat) (h : List (Step Nat)), specRun c h (run Policy.code c [] h).1 = true
 
 /-- The model of the pinned code meets the specification on every history that satisfies the
     explicit, decidable side condition `cleanRun`: no unsigned document for a source with a
-    certificate (F9), no MDQ answer with a bad signature for an MDQ source with a certificate (F11).
-    On such histories code and reference make the same observations and reach the same store. -/
+    certificate, at load time or as an MDQ answer (F9).  On such histories code and reference make the same observations and reach the same store. -/
 theorem C11_model_meets_spec_partial (c : Consts α) (h : List (Step α)) (hc : cleanRun c [] h = true) :
     run Policy.code c [] h = run Policy.ideal c [] h ∧ specRun c h (run Policy.code c [] h).1 = true := by
   have := run_code_eq_ideal c h [] hc
@@ -1210,7 +1206,8 @@ def idpN : Ent Nat := entN 7 1 [roleN .idpsso [2] 50]
 /-- F9: a remote source with a certificate is handed an unsigned document. -/
 def hF9 : List (Step Nat) := [impStep (specN .remote true (.doc (docN .unsigned idpN))), qStep 0 [] (.get 7)]
 
-/-- F11: an MDQ source with a certificate gets an answer signed with the wrong key. -/
+/-- regression (F11, fixed by 85b6178b): an MDQ source with a certificate gets an answer signed with the
+    wrong key; before the fix `keys()` listed the entity afterwards -/
 def badN : List (MdqResp Nat) := [{ src := 1, eid := 7, fetch := .doc (docN .wrongKey idpN) }]
 def hF11 : List (Step Nat) := [impStep (specN .mdq true .unavailable), qStep 0 badN (.get 7), qStep 0 badN .keys]
 
@@ -1226,14 +1223,7 @@ theorem C11_model_meets_spec_counterexample : ¬ C11_model_meets_spec_full := by
   revert this
   decide
 
-/-- F11 — MDQ answer that fails verification stays listed by `keys()`. -/
-theorem C11_model_meets_spec_counterexample_mdq : ¬ C11_model_meets_spec_full := by
-  intro h
-  have := h cN hF11
-  revert this
-  decide
-
-/-! ### the two departures, each at the place where it arises -/
+/-! ### the departure at the place where it arises -/
 
 /-- F9, FULL: a source with a certificate is loaded only from a document whose signature verifies. -/
 def C11_authentic_load_code_full : Prop :=
@@ -1263,32 +1253,7 @@ theorem C11_authentic_load_code_counterexample : ¬ C11_authentic_load_code_full
   subst hf
   exact absurd hs (by decide)
 
-/-- F11, FULL: after an MDQ lookup that did not produce the entity, the source does not list it. -/
-def C11_failed_refresh_serves_nothing_code_full : Prop :=
-  ∀ (p2 : Nat) (now : Int) (resp : Fetch Nat) (s : Source Nat) (eid : Nat),
-    refetches now s eid → onTopic resp eid →
-    (∀ e, (mdxGet Policy.code p2 now resp s eid).1 ≠ .ok e) →
-    has (mdxGet Policy.code p2 now resp s eid).2.entities eid = false
-
-/-- F11, PARTIAL: true of the code whenever the answer is one the certificate accepts (or no
-    certificate is configured). -/
-theorem C11_failed_refresh_serves_nothing_code_partial (p2 : α) (now : Int) (resp : Fetch α) (s : Source α) (eid : α)
-    (hclean : fetchClean s.cert resp) (hre : refetches now s eid) (hot : onTopic resp eid)
-    (hfail : ∀ e, (mdxGet Policy.code p2 now resp s eid).1 ≠ .ok e) :
-    has (mdxGet Policy.code p2 now resp s eid).2.entities eid = false := by
-  rw [mdxGet_code_eq_ideal hclean p2 now eid] at hfail ⊢
-  exact C11_failed_refresh_serves_nothing p2 now resp s eid hre hot hfail
-
 def mdqSrcN : Source Nat := { key := 1, kind := .mdq, cert := true, chk := true, fresh := 600, entities := [], expiry := [] }
-
-theorem C11_failed_refresh_serves_nothing_code_counterexample : ¬ C11_failed_refresh_serves_nothing_code_full := by
-  intro h
-  have hr : (mdxGet Policy.code 2 0 (.doc (docN .wrongKey idpN)) mdqSrcN 7).1 = .raised := by decide
-  have := h 2 0 (.doc (docN .wrongKey idpN)) mdqSrcN 7 (Or.inl (by decide))
-    (by intro d hd e he; cases hd; revert he; simp [docEntities, docN, idpN, entN]; intro h; rw [h])
-    (by intro e; rw [hr]; simp)
-  revert this
-  decide
 
 /-- Soundness over every clean history, for the model of the pinned code. -/
 theorem C11_served_is_justified_code_partial (c : Consts α) (h : List (Step α)) (hc : cleanRun c [] h = true) :
@@ -1349,6 +1314,9 @@ example : (mdxGet Policy.ideal 2 101 .unavailable staleN 7).1 = .keyErr ∧
     has (mdxGet Policy.ideal 2 101 .unavailable staleN 7).2.entities 7 = false := by decide
 example : (mdxGet Policy.ideal 2 101 (.doc (docN .wrongKey idpN)) staleN 7).1 = .raised ∧
     has (mdxGet Policy.ideal 2 101 (.doc (docN .wrongKey idpN)) staleN 7).2.entities 7 = false := by decide
+-- the code as it is: a refresh answered with a bad signature raises and the stale entry is gone (not back)
+example : (mdxGet Policy.code 2 101 (.doc (docN .wrongKey repeatN)) staleN 7).1 = .raised ∧
+    (mdxGet Policy.code 2 101 (.doc (docN .wrongKey repeatN)) staleN 7).2.entities = [] := by decide
 example : (mdxGet Policy.ideal 2 100 .unavailable staleN 7).1 = .ok idpN := by decide
 example : (mdxGet Policy.ideal 2 101 (.doc (docN .valid repeatN)) staleN 7).1 = .ok repeatN := by decide
 
@@ -1362,6 +1330,11 @@ def hGood : List (Step Nat) :=
 example : cleanRun cN [] hGood = true := by decide
 example : (run Policy.code cN [] hGood).1 =
     [.done true, .ent 1 [0, 1, 0, 0, 0, 0], .ent 94 [1, 0, 0, 0, 0, 0], .strs [7, 8], .done false, .missing, .ents [(7, 1)]] := by decide
-example : cleanRun cN [] hF9 = false ∧ cleanRun cN [] hF11 = false ∧ cleanRun cN [] hF18 = true := by decide
+example : cleanRun cN [] hF9 = false ∧ cleanRun cN [] hF11 = true ∧ cleanRun cN [] hF18 = true := by decide
+-- the former F11 witness: the code now leaves nothing behind; the pre-85b6178b behaviour did
+example : (run Policy.code cN [] hF11).1 = [.done true, .raised, .strs []] := by decide
+example : (run ⟨true, true⟩ cN [] hF11).1 = [.done true, .raised, .strs [7]] := by decide
+example : has (mdxGet Policy.code 2 0 (.doc (docN .wrongKey idpN)) mdqSrcN 7).2.entities 7 = false ∧
+    has (mdxGet ⟨true, true⟩ 2 0 (.doc (docN .wrongKey idpN)) mdqSrcN 7).2.entities 7 = true := by decide
 
 end C11
